@@ -106,7 +106,12 @@ Definition site_pred (n : N) (t : str) : bool :=
       else if n =? 13 then inert_doc_b (site_tag_doc t)
       else if n =? 15 then inert_doc_b (site_client_title [49;46;48] t)
       else if n =? 16 then no_chars bad_raw t
-      else if n =? 17 then is_ident (site_enum_default t)   (* ASCII text: the attribute name is computed by the model *)
+      else if n =? 17 then   (* ASCII text: the attribute name is computed by the model; after the name only blanks or a comment *)
+        let (nm, r) := span is_ident_char (site_enum_default t) in
+        is_ident nm && match dropwhile (fun c => (c =? 32) || (c =? 9) || (c =? 12)) r with
+                       | [] => true
+                       | c :: r' => (c =? 35) && single_physical_line r'
+                       end
       else if n =? 18 then true      (* non-ASCII text: Python's str.upper + str.isidentifier verdict supplied by the harness *)
       else if n =? 19 then false
       else inert_doc_b (block_line t)
